@@ -39,6 +39,7 @@ type Obligation struct {
 	Model   map[string]string
 	Output  string
 	ExpectSat bool
+	Raw     string // complete SMT-LIB query (raw lemmas): unsat = holds
 }
 
 type ModelVar struct {
@@ -292,6 +293,9 @@ func (c *FuncCtx) buildQuery(o *Obligation, withModel bool) string { return c.bu
 
 // buildQueryOpt: relaxed drops the quantified axioms (used to look for candidate models when the full query is undecided).
 func (c *FuncCtx) buildQueryOpt(o *Obligation, withModel bool, relaxed bool) string {
+	if o.Raw != "" {
+		return o.Raw
+	}
 	c.mu.Lock()
 	defer c.mu.Unlock()
 	include := map[int]bool{}
